@@ -3,7 +3,9 @@
 (*                                                                                               *)
 (* Three layers, all written from the property statement:                                        *)
 (*  (a) Python argument binding:  Valid(sig, cc), Bind(sig, cc)  for a signature                 *)
-(*          sig = [npos 0..4, ndef 0..npos, varargs, varkw]   (parameters a, b, c, d, *args, **kw)*)
+(*          sig = [npos 0..4, ndef 0..npos, varargs, varkw, alt]  (parameters a, b, c, d, *args,  *)
+(*          **kw; alt = the function carries the alternative default VALUES: two functions made  *)
+(*          from one code object differ only in such values)                                     *)
 (*      and a concrete call  cc = [pos |-> <<values>>, kw |-> <<<<name, value>>, ...>>]          *)
 (*      (keyword items sorted by name - a call's keywords are a set).                            *)
 (*  (b) wrapper objects: a wrapper object is the chain (outermost first) of its layers           *)
@@ -21,7 +23,10 @@ EXTENDS Values, SequencesExt, FiniteSetsExt, TLC
 \* ---------------------------------------------------------------------------------------------
 ParamNames == <<"a", "b", "c", "d">>
 DefaultOf  == [a |-> VStr("da"), b |-> VStr("db"), c |-> VStr("dc"), d |-> VStr("dd")]
+AltDefaultOf == [a |-> VStr("ea"), b |-> VInt(0), c |-> VStr("ec"), d |-> None]
+DefVal(sig, n) == IF sig.alt THEN AltDefaultOf[n] ELSE DefaultOf[n]      \* defaults belong to the function object
 Bad        == VStr("bad")                 \* the base function raises ValueError when it is handed this value
+Quiet      == VStr("quiet")               \* ... and returns None (without raising) when it is handed this one
 VDict(items) == <<"m", items>>            \* dict with string keys, items sorted by key (Values.tla)
 Unspecified  == <<"unspec", 0>>           \* the statement does not pin the outcome
 IsExc(r)   == r[1] = "exc"
@@ -43,7 +48,7 @@ Valid(sig, cc) ==
 
 ParamVal(sig, cc, i) == IF i <= Len(cc.pos) THEN cc.pos[i]
                         ELSE IF PName(i) \in KwNames(cc) THEN KwGet(cc, PName(i))
-                        ELSE DefaultOf[PName(i)]
+                        ELSE DefVal(sig, PName(i))
 VarArgs(sig, cc) == VTup(SubSeq(cc.pos, sig.npos + 1, Len(cc.pos)))
 VarKw(sig, cc)   == VDict(SelectSeq(cc.kw, LAMBDA p : p[1] \notin Params(sig)))
 \* the binding as the dict  {parameter: value, 'args': tuple, 'kw': dict}  with its items in key order
@@ -57,12 +62,16 @@ Bind(sig, cc) ==
 ArgSpec(sig) == [args     |-> SubSeq(ParamNames, 1, sig.npos),
                  varargs  |-> IF sig.varargs THEN "args" ELSE "",
                  varkw    |-> IF sig.varkw THEN "kw" ELSE "",
-                 defaults |-> [i \in 1..sig.ndef |-> DefaultOf[PName(sig.npos - sig.ndef + i)]]]
+                 defaults |-> [i \in 1..sig.ndef |-> DefVal(sig, PName(sig.npos - sig.ndef + i))]]
 
-\* The base function of the session returns all its bindings, and raises when it sees Bad.
-HasBad(cc) == (\E i \in 1..Len(cc.pos) : cc.pos[i] = Bad) \/ (\E i \in 1..Len(cc.kw) : cc.kw[i][2] = Bad)
+\* The base function of the session returns all its bindings; it raises when it sees Bad and returns
+\* None when it sees Quiet (a lookup that misses, a procedure called for its effect).
+Passes(cc, v) == (\E i \in 1..Len(cc.pos) : cc.pos[i] = v) \/ (\E i \in 1..Len(cc.kw) : cc.kw[i][2] = v)
+HasBad(cc)   == Passes(cc, Bad)
+HasQuiet(cc) == Passes(cc, Quiet)
 BaseOutcome(sig, cc) == IF ~Valid(sig, cc) THEN Raises("TypeError")
-                        ELSE IF HasBad(cc) THEN Raises("ValueError") ELSE Bind(sig, cc)
+                        ELSE IF HasBad(cc) THEN Raises("ValueError")
+                        ELSE IF HasQuiet(cc) THEN None ELSE Bind(sig, cc)
 
 \* the values every passed argument carries end up in the binding exactly once; the rest are defaults
 PassedBag(cc)  == cc.pos \o [i \in 1..Len(cc.kw) |-> cc.kw[i][2]]
@@ -74,7 +83,7 @@ BindConserves(sig, cc) ==
     Valid(sig, cc) =>
         /\ \A v \in Range(PassedBag(cc)) : Count(BoundBag(sig, cc), v) = Count(PassedBag(cc), v)
         /\ \A i \in 1..sig.npos : ParamVal(sig, cc, i) \in Range(PassedBag(cc)) \/
-                                    (i > sig.npos - sig.ndef /\ ParamVal(sig, cc, i) = DefaultOf[PName(i)])
+                                    (i > sig.npos - sig.ndef /\ ParamVal(sig, cc, i) = DefVal(sig, PName(i)))
 
 \* ---------------------------------------------------------------------------------------------
 \* (b) wrapper objects
@@ -82,8 +91,14 @@ BindConserves(sig, cc) ==
 \* the decorators of the statement; try_none and try_zero are one class (try_value) with a parameter
 KindSeq == <<"try_none", "try_zero", "try_back", "kwargs_support", "cache", "loops", "pd2np">>
 Kinds   == Range(KindSeq)
-ClassOf(kind) == IF kind \in {"try_none", "try_zero"} THEN "try_value" ELSE kind
-ParOf(kind)   == IF kind = "try_zero" THEN VInt(0) ELSE None
+\* try_list has a MUTABLE fallback.  Values of the specification cannot be mutated: whatever the caller does
+\* to an object a call returned (append to the list it was given, ...) is not an action of the session and
+\* changes nothing - the next failing call returns the fallback again, on this and on every other function
+\* decorated with it.  (Named deviation MemoisedResultIsShared: a result served from a memo is the object
+\* the first call returned; the drivers do not mutate results of chains with a cache layer.)
+BindKindSeq == KindSeq \o <<"try_list">>
+ClassOf(kind) == IF kind \in {"try_none", "try_zero", "try_list"} THEN "try_value" ELSE kind
+ParOf(kind)   == IF kind = "try_zero" THEN VInt(0) ELSE IF kind = "try_list" THEN VLst(<<>>) ELSE None
 LayerOf(kind) == <<ClassOf(kind), ParOf(kind)>>
 Layers  == {LayerOf(k) : k \in Kinds}
 
@@ -165,7 +180,7 @@ MechWrap(cs, rs, layer, target, fixed) ==
 \* (c) the memo of a cached function; the base function counts its evaluations and returns
 \*     (bindings, number of this evaluation)
 \* ---------------------------------------------------------------------------------------------
-Result(sig, cc, n) == VTup(<<Bind(sig, cc), VInt(n)>>)
+Result(sig, cc, n) == IF HasQuiet(cc) THEN None ELSE VTup(<<Bind(sig, cc), VInt(n)>>)
 MemoIdx(m, cc) == {i \in 1..Len(m) : m[i][1] = cc}
 \* key = the arguments as passed: positional tuple and the set of keyword items
 MemoCall(m, ev, sig, cc) ==
